@@ -29,7 +29,7 @@ CLAIMED = {
  "C12": ("proof", "the raw storage after every step is decoded by the model's proved-inverse decoder and audited against the model's retained versions (every retained tree rebuilt through root markers and child links equals the reference, no unreachable node, index = latest pairs); orphan-diff exactness proved", "5.C12", T_PROOF),
  "C13": ("proof", "round-trip theorems for the node codec (new and legacy child references, mode bits, range checks), legacy nodes, fast nodes, zig-zag varints, length-prefixed bytes, Go's uvarint with overflow checks, and decoded length <= input length; the model's total decoders are compared with MakeNode / MakeLegacyNode / fastnode.DeserializeNode / the varint and bytes decoders / the reference-root reader on structured, mutated and random inputs (result class and every decoded field), the library-written database is decoded and audited by the model after every step (C12 machinery), and conversely the model's independent encoder writes a database image of a retained version which the library opens, reads, proves, exports and extends with further commits (hashes compared)", "5.C13", T_PROOF),
  "C14": ("proof", "version-machine theorems (query agreement, commit onto an existing version succeeds iff same hash and changes nothing, new commit appends exactly one version, out-of-range loads fail and leave the machine unchanged) + correctness of the first-version binary search under root-key monotonicity; tied by correspondence with every version number queried", "5.C14", T_PROOF),
- "C15": ("proof", "apply_changeset: for all ordered trees under the sharing invariant of path-copying writes, applying the extracted change set (new leaves merged in key order with vanished leaves) to the predecessor's contents gives the version's contents; changeset_effect: each key once, ascending, a set wins over a deletion. TraverseStateChanges / SaveChangeSet are compared with this executable specification on every history (repeated writes of a key, set-then-remove, rewrites of identical values, no-op versions) and by replaying extracted change sets into an empty tree", "5.C15", T_PROOF),
+ "C15": ("proof", "apply_changeset: for all ordered trees under the sharing invariant of path-copying writes, applying the extracted change set (new leaves merged in key order with vanished leaves) to the predecessor's contents gives the version's contents; changeset_effect: each key once, ascending, a set wins over a deletion; changeset_of_every_history: the sharing invariant holds in every reachable state of the version machine, so the statement holds for every retained pair of consecutive versions of every history. TraverseStateChanges / SaveChangeSet are compared with this executable specification on every history (repeated writes of a key, set-then-remove, rewrites of identical values, no-op versions) and by replaying extracted change sets into an empty tree", "5.C15", T_PROOF),
  "C17": ("fault_enumeration", "single-fault enumeration: every storage call (Get, Has, iterator creation/step, batch Set/Delete/Write) of every operation fails in turn; outcome must be an error or the fault-free answer, and the store left by a failed write must reopen to before/after; reference answers come from the model", "5.C17", "fault enumeration on the implementation, reference answers from the Lean model"),
  "C18": ("proof", "the contract is the sorted-map machine kvStep; proved: namespace = half-open range up to the cut incremented prefix for every non-empty prefix (0xFF runs included) and the counterexample for the former same-length bound, no empty key / nil value stored, reads pure; MemDB, GoLevelDB, PrefixDB over both are run on identical generated programs (0x00/0xFF alphabet, foreign neighbour keys, batches) and compared with the contract and with each other", "5.C18", T_PROOF),
 }
